@@ -6,19 +6,19 @@ props = [json.loads(l) for l in open(os.path.join(V, "properties.jsonl"))]
 
 # id -> (technique, level text, level note)
 CLAIMED = {
- "C01": ("property-based differential testing: rapid-generated typed sessions, compiled VM vs. an independent reference interpreter",
+ "C01": ("property-based differential testing: rapid-generated typed and type-blind sessions, compiled VM vs. an independent reference interpreter",
          "Generated well-typed, terminating sessions (closures, generators, recursion, every statement form in every position) run through parser+compiler+VM and through a definitional interpreter written from the Readme; final value, output and error class are compared per statement in both result modes. Exploration: holds on the cases counted in the evidence.",
          "trusted: harness/ref (reference semantics), the shared parser, rapid; domain flags skip (and count) programs whose meaning the description leaves open"),
  "C02": ("property-based differential testing: generated generator/for-loop sessions with traces vs. the reference's coroutine semantics",
          "Sessions over a generator library (map, filter, zip, chain, take, traced counters, recursive/conditional/nested generators, factories, value-position yield) with compositions to depth 4, zipped loops of unequal length, nested loops, loops in recursive functions and early returns; generators and bodies write a trace, so loop values, accumulators and the interleaving order are compared with the reference in both result modes.",
          "trusted: harness/ref coroutine semantics (iter.Pull per iterator expression); frame-copy dependent programs are flagged and skipped"),
- "C03": ("metamorphic property-based testing on the real VM: one call of a side-effect-free function in 15 dynamic placements, plus the reference value",
+ "C03": ("metamorphic property-based testing on the real VM: one call of a side-effect-free function in 22 dynamic placements (histories with failures, depth sweeps, recycled contexts), plus the reference value",
          "A call of a generated or library pure function (closures created/called/returned, captured variables updated after capture and after deep calls, loops, generators) is evaluated at top level, twice in one expression, in loop bodies, in generators, under recursion depth 0..3000, from callers with 100-400 locals, after loops, failed statements and stack growth; all placements must give the same value, which must equal the reference's.",
          "trusted: printed form as the observation; functions never do I/O by construction"),
  "C04": ("property-based differential testing over a shared name pool + global probes: scoping sessions vs. the reference's own resolver, isolation invariant on the VM alone",
          "Eight names serve as globals, parameters, locals, loop variables and captured variables at once; closures escape directly, in arrays, through an identity function and out of generators; after every statement all globals are probed: a statement that is not a top-level assignment must leave them unchanged (VM only) and every statement must agree with the reference.",
          "trusted: harness/ref name resolution (lexical order, one level of capture); read-before-definition programs flagged and skipped"),
- "C05": ("property-based crash fuzzing: type-blind tree-generated and mutated programs through parser, compiler and VM under recover(); binary script leg; rapid.MakeFuzz leg in thorough",
+ "C05": ("property-based crash fuzzing: type-blind tree-generated and mutated programs through parser, compiler and VM under recover(); deterministic family over extreme operands; binary script leg; rapid.MakeFuzz leg in thorough",
          "Arbitrary parseable programs (every operator over every literal kind incl. extreme values, undefined names, wrong arities, control statements in every position, token-mutated typed sessions) must compile and end in a value or a documented runtime error in both result modes; any Go panic or undocumented error is a violation; a script of operator/operand products runs through the built binary to catch unrecoverable faults.",
          "trusted: the reference interpreter only as a resource screen (programs it cannot finish are skipped and counted); exit() never generated in process"),
  "C06": ("property-based fuzzing of the front end: token/byte soup, program prefixes, nesting bombs; totality oracle with watchdog; native go fuzz leg in thorough",
@@ -27,7 +27,7 @@ CLAIMED = {
  "C07": ("property-based round-trip testing: random syntax trees printed by a grammar-derived printer in two layouts and parsed back",
          "Random trees of every parser-producible shape are printed with minimal parentheses/braces by the documented precedence table and again with redundant parentheses, braces, blanks, blank lines and comments; both texts must parse to exactly the tree.",
          "trusted: harness/gen/print.go as the documented grammar; trees limited to non-negative number literals and backslash-free strings"),
- "C08": ("metamorphic property-based testing with fault injection: failing sessions vs. failure-free twin sessions on fresh VMs, plus reference and machine-state hooks",
+ "C08": ("metamorphic property-based testing with fault injection: failing sessions vs. failure-free twin sessions on fresh VMs and as scripts through the built binary, plus reference and machine-state hooks",
          "Failure carriers (17 runtime error classes x 16 dynamic positions incl. call depth to 300, loop bodies, suspended/nested generators, child contexts, zipped iterators; parse errors; bursts) are mixed with observers; the twin session drops the carrier or replaces the failing statement/generator by one that stops at the same point; every other statement must agree between the two sessions and with the reference, and the machine must be clean after each failure.",
          "trusted: the syntactic twin construction (return 0 at top level unwinds without error keeping globals - confirmed by experiment)"),
  "C09": ("property-based testing with state hooks: machine residue after every generated statement in both result modes; metamorphic growth pairs (n vs n+600 iterations)",
@@ -39,7 +39,7 @@ CLAIMED = {
  "C11": ("property-based testing of the value API: generated operand tuples vs. the reference value model, exhaustive kind pairings, algebraic laws",
          "Every exported operator of types/value is compared with an independent value model on boundary and random operands of every kind; all 7x7 kind pairings per operator are enumerated in every run; symmetry/negation/consistency laws and the slicing laws are checked directly on the implementation.",
          "trusted: harness/ref/values.go as the documented algebra; shifts pinned only for counts 0..63 on non-negative left operands"),
- "C12": ("metamorphic property-based testing on the real VM: one generated expression/statement in ~30 syntactic placements, plus pair rewrites",
+ "C12": ("metamorphic property-based testing on the real VM: one generated expression/statement in ~35 syntactic placements, plus pair rewrites (increment forms, same operand, negated conditions, evaluation through temporaries)",
          "A generated expression or statement is embedded in every code-generation context (discarded, used, function tail, loop bodies, call argument, operand depths, index position, ...) and all placements must agree on value, output and error class; the rewrites named in the property (x = x + 1 forms, e op e, negated conditions) must agree too.",
          "trusted: nothing but the implementation itself (no reference); placements that change the program by definition (assigning nil, moving a global assignment into a function) are excluded"),
  "C13": ("model-based testing: rapid state machine on the transactional lexer; random combinator expressions vs. an independent ordered-choice (PEG) recogniser",
@@ -48,7 +48,7 @@ CLAIMED = {
  "C14": ("property-based testing of the lexer: constructive lexeme lists in two layouts, differential against a regular-expression tokenizer, structural invariants; native go fuzz leg in thorough",
          "Lexeme lists rendered with random gaps/comments must come back as exactly those lexemes; arbitrary strings over the alphabet must be accepted exactly when an independent regex tokenizer accepts, with equal kinds, spans, and the ordering/gap/maximal-run/EOL/EOF invariants.",
          "trusted: the regex tokenizer in props/c14_test.go; string token text compared after the documented \\n substitution"),
- "C15": ("exhaustive boundary enumeration + property-based testing of the instruction codec and function values; generated programs around the 2^15/2^16 limits",
+ "C15": ("exhaustive boundary enumeration + property-based testing of the instruction codec and function values; generated programs around the 2^15/2^16 limits (counts, jump distances, exact boundaries), refusal sessions through the binary",
          "All 128 opcodes x 3 slots x 8 kinds x boundary addresses round-trip, addresses outside the signed 16 bit field are refused, three operands OR-ed together and patched decode independently, function values round-trip; programs with ~16k-70k constants, body statements, locals, parameters or session statements are refused at compile time (segments untouched) or give the closed-form value.",
          "trusted: the field layout read off bytecode.go; sizes explored to ~70000"),
  "C16": ("property-based differential testing through the built binary: file mode, REPL over a pipe and -eval vs. transcripts computed by the reference statement by statement",
